@@ -1,6 +1,7 @@
 package middleware
 
 import (
+	"encoding/base64"
 	"context"
 	"net/http"
 	"net/url"
@@ -57,6 +58,28 @@ func vh_C01_load_basic() {
 	} else {
 		verifReach("no-session")
 		verifAssert("C01.load.basic.rejected-or-absent", !has || auth == "" || v.calls == 0 || !v.ok)
+	}
+}
+
+// converse: a well-formed Basic credential reaches the validator exactly as the client sent it
+// (user = text before the first ':', password = everything after it, colons included), and a
+// credential the validator accepts yields that user's session
+// verif: unwind=8 strlen=10 concretize=4
+func vh_C01_load_basic_converse() {
+	user := ndString("user")
+	pass := ndString("password")
+	verifAssume(user != "" && !strings.Contains(user, ":"))
+	auth := "Basic " + base64.StdEncoding.EncodeToString([]byte(user+":"+pass))
+	req, scope := vAuthReq(auth, true)
+	v := &vBasicValidator{}
+	loadBasicAuthSession(v, nil, false, http.HandlerFunc(func(http.ResponseWriter, *http.Request) {})).ServeHTTP(&vRW{}, req)
+	verifAssert("C01.load.basic.credential-reaches-validator-intact", v.calls == 1 && v.user == user && v.pw == pass)
+	if v.ok {
+		verifReach("accepted")
+		verifAssert("C01.load.basic.converse", scope.Session != nil && scope.Session.User == user)
+	} else {
+		verifReach("refused")
+		verifAssert("C01.load.basic.refused-no-session", scope.Session == nil)
 	}
 }
 
